@@ -137,6 +137,8 @@ type Task struct {
 	reqCond *CondModel
 	killed  bool
 	exiting bool
+	epoch   int      // fair continuation: the quiet period (Sim.epoch) in which base was taken
+	base    int      // Steps at the first step the task took in that quiet period
 	watch   bool     // WatchEpilogue: record the kinds of the operations from now on
 	after   []OpKind // the operation the task was at when the watch began, and those after it
 	prio    int
@@ -282,6 +284,7 @@ type Sim struct {
 	fairStep0    int // s.step when the fair continuation began
 	progVal      int // last value of progress()
 	progDec      int // fairDec when it last changed
+	epoch        int // quiet period of the fair continuation (a new one after every sign of life)
 	progStep     int // s.step when it last changed
 	ended        int // tasks that have ended (part of progress)
 	work         int // operations other than those of a spinning goroutine
@@ -1184,11 +1187,14 @@ func (s *Sim) progress() int {
 // its turn, so whatever the run still has to do gets done if it is finite; the
 // question is how long to wait for it. Two clocks:
 //
-//   - nothing at all has happened for two step budgets of decisions (thirty of
-//     steps, when a single task is runnable and no decisions are made): no visible
-//     event and no operation other than what a goroutine does while it waits for
-//     another one by spinning (atomics, Gosched, selects that take their default,
-//     the harness's yields). Everybody who is runnable is spinning: a livelock.
+//   - since the last sign of life - a visible event, or an operation other than
+//     what a goroutine does while it waits for another one by spinning (atomics,
+//     Gosched, selects that take their default, the harness's yields) - every
+//     runnable task has taken a whole step budget of steps of its own. Everybody
+//     who is runnable is spinning: a livelock. (Counted per task, not in all: a
+//     worker that is on its way through thousands of atomic loads - the transport
+//     looks at its closed flag on every write - gets one step in seventeen when
+//     sixteen producers spin next to it.)
 //   - somebody is busy (locks, channels, sockets) but nothing visible has come of
 //     it for three million steps. The code under test may spend many operations
 //     on one visible event - a 65 000 byte datagram written a byte at a time
@@ -1207,13 +1213,22 @@ func (s *Sim) fairVerdict(decision bool) bool {
 	}
 	if p := s.progress(); p != s.progVal {
 		s.progVal, s.progStep = p, s.step
-		s.workVal, s.progDec, s.workStep = s.work, s.fairDec, s.step
+		s.workVal, s.epoch = s.work, s.epoch+1
 	} else if s.work != s.workVal {
-		s.workVal, s.progDec, s.workStep = s.work, s.fairDec, s.step
+		s.workVal, s.epoch = s.work, s.epoch+1
 	}
 	m := s.Cfg.MaxSteps
+	// the first clock: since the last sign of life every runnable task has taken
+	// a whole step budget of steps of its own, all of them of the spinning kind
+	spinning := len(s.elig) > 0
+	for _, t := range s.elig {
+		if t.epoch != s.epoch || t.Steps-t.base < m {
+			spinning = false
+			break
+		}
+	}
 	switch {
-	case s.fairDec-s.progDec >= 2*m || s.step-s.workStep >= 30*m:
+	case spinning:
 		s.Livelock = s.describeStuck()
 		return true
 	case s.step-s.progStep >= 3000000:
@@ -1357,6 +1372,9 @@ func (s *Sim) strategyPick0(r *Rand, el []*Task) int {
 func (s *Sim) runStep(t *Task) {
 	s.step++
 	StepsTotal.Add(1)
+	if t.epoch != s.epoch {
+		t.epoch, t.base = s.epoch, t.Steps
+	}
 	s.Stats.Steps++
 	t.Steps++
 	if s.last != t {
